@@ -413,10 +413,11 @@ fn resolve_key(m: &MBucket, k: &KeySel) -> Vec<u8> {
     }
 }
 
-fn resolve_val(v: &ValSel) -> Vec<u8> {
+fn resolve_val(v: &ValSel, key_len: usize) -> Vec<u8> {
     match v {
         ValSel::Lit(v) => v.clone(),
         ValSel::Fill { len, seed } => fill_bytes(*len as usize, *seed),
+        ValSel::Fit { total, seed } => fill_bytes((*total as usize).saturating_sub(key_len), *seed),
     }
 }
 
@@ -1094,6 +1095,22 @@ fn check_root_listing(tx: &Tx, work: &MBucket) -> Result<(), Failure> {
     Ok(())
 }
 
+/// Opens the bucket handles that `exec_op` would open for this operation, without performing
+/// the operation itself (used by differential runs that leave an operation out).
+pub fn touch_target<'b, 'tx, 'r>(ctx: &mut TxCtx<'b, 'tx, 'r>, op: &Op, work: &MBucket) -> Result<(), Failure> {
+    let (b, allow_root) = match op {
+        Op::Put { b, .. } | Op::Get { b, .. } | Op::GetKv { b, .. } | Op::Delete { b, .. } | Op::PutRun { b, .. } | Op::DeleteRun { b, .. } => (*b, false),
+        Op::GetBucket { b, .. } | Op::CreateBucket { b, .. } | Op::GetOrCreate { b, .. } | Op::DeleteBucket { b, .. } => (*b, true),
+        _ => return Ok(()),
+    };
+    if let Some(p) = select_path(work, b, allow_root) {
+        if !p.is_empty() {
+            ctx.ensure(&p)?;
+        }
+    }
+    Ok(())
+}
+
 /// Executes one op against jammdb and the working model.
 pub fn exec_op<'b, 'tx, 'r>(ctx: &mut TxCtx<'b, 'tx, 'r>, op: &Op, work: &mut MBucket) -> Result<(), Failure> {
     ctx.stats.ops += 1;
@@ -1126,7 +1143,7 @@ pub fn exec_op<'b, 'tx, 'r>(ctx: &mut TxCtx<'b, 'tx, 'r>, op: &Op, work: &mut MB
         Op::Put { b, k, v, kk, vk } => {
             let p = kv_target!(b);
             let key = resolve_key(work.bucket(&p).unwrap(), k);
-            let val = resolve_val(v);
+            let val = resolve_val(v, key.len());
             if key.is_empty() {
                 ctx.stats.empty_key = true;
             }
